@@ -70,7 +70,11 @@ Fourth unit group (round 4, written to lean/CB/Gen/Shifts.lean, imports CB.Gen.P
 `impl Limb { shl, shl1, shr, shr1, bits, leading_zeros, trailing_zeros, trailing_ones, bitor, select }`
 (src/limb/{shl,shr,bits,bit_or,cmp}.rs; namespace CB.Gen.Shifts.Limb) and `impl<const LIMBS: usize> Uint<LIMBS> { select,
 overflowing_shl1, shl_limb, shr1, shr1_with_carry, overflowing_sh{l,r}_vartime, sh{l,r}_vartime, wrapping_sh{l,r}_vartime,
-overflowing_sh{l,r}, sh{l,r}, wrapping_sh{l,r} }` (src/uint/{cmp,shl,shr}.rs; namespace CB.Gen.Shifts.Uint).  Subset extensions:
+overflowing_sh{l,r}, sh{l,r}, wrapping_sh{l,r} }` (src/uint/{cmp,shl,shr}.rs; namespace CB.Gen.Shifts.Uint), and the free
+functions `bit`, `leading_zeros`, `trailing_zeros`, `trailing_ones` over a limb slice of src/uint/bits.rs (namespace
+CB.Gen.Shifts.Bits; unit option `cut='\nimpl<'`: only the text in front of the first `impl` block).  Subset extensions:
+  a slice parameter `&[Limb]` is the list of its limbs, `limbs.len()` its length (a `Nat`); `i as u32` of a `Nat` counter is
+  `BitVec.ofNat 32 i`; an untyped `let x = 1 << n;` gets the one integer width with which the rest of the block translates;
   a unit may name further units holding methods of `Limb` / `Uint` (`limb_more=[..]`, `uint_more=[..]`), searched first;
   `Limb::HI_BIT` / `Self::HI_BIT` (63), `Self::BITS` inside `impl Limb` (64); inside a generic `impl Uint`: `Self::ZERO`
   (`List.replicate LIMBS 0#64`) and `Self::BITS` (`BitVec.ofNat 32 (64 * LIMBS)`, the `u32` constant);
@@ -96,7 +100,8 @@ overflowing_sh{l,r}, sh{l,r}, wrapping_sh{l,r} }` (src/uint/{cmp,shl,shr}.rs; na
   a fifth `while` form:
     - `while i > 0 { i -= 1; ..; }` with a `usize` counter (`let mut i = LIMBS;`, or the counter left by a preceding
       `while i < BOUND` loop, whose value is BOUND) becomes `<fn>_loop<j> captured.. : Nat → state.. → state` by structural
-      recursion on the counter itself: round `n + 1` runs the body with `i = n`; state / captured as in the fourth form.
+      recursion on the counter itself: round `n + 1` runs the body with `i = n`; state / captured as in the fourth form
+      (untyped accumulators `let mut count = 0;` get their width the same way).
 """
 import os, re, sys, json
 
@@ -567,6 +572,8 @@ def ty_of(t, self_ty):
     m = re.match(r'\((.*)\)$', t)
     if m:
         return tuple(ty_of(x, self_ty) for x in m.group(1).split(','))
+    if re.match(r'\[\s*Limb\s*\]$', t):
+        return 'uint'        # a slice parameter `&[Limb]`: the list of the limbs; `limbs.len()` is its length
     m = re.match(r'ConstCtOption\s*<\s*(.+?)\s*>$', t)
     if m:
         # a `ConstCtOption<T>` is the pair (value, is_some mask), as in CB/Model/Shift.lean
@@ -839,6 +846,8 @@ class Gen:
                 ty = 64
             if ty == tgt:
                 return t, tgt
+            if ty == 'nat':
+                return f'(BitVec.ofNat {tgt} {atom(t)})', tgt      # a `usize` counter used as a word (`i as u32`)
             if not isinstance(ty, int):
                 raise Unsupported('cast of ' + str(ty))
             return f'({t}).setWidth {tgt}', tgt
@@ -912,6 +921,8 @@ class Gen:
             if name == 'overflowing_add':
                 b, tb = self.ex(args[0], env, tr)
                 return f'(({r} + {b}), decide (({r} + {b}) < {r}))', (tr, 'bool')
+            if name == 'len' and tr == 'uint' and not args:
+                return f'{atom(r)}.length', 'nat'
             if name == 'expect' and isinstance(tr, tuple) and len(tr) == 2 and tr[1] == 'choice' and len(args) == 1 and args[0][0] == 'str':
                 # `ConstCtOption::expect(msg)`: `assert!(is_some); value` — the translation is the VALUE; that the assertion
                 # holds is a statement about the hand-written model (outer `Option`), proved with the bridge
@@ -1022,7 +1033,7 @@ class Gen:
 
     def run(self, stmts, env, lines, declared=None):
         """execute statements symbolically: appends lean `let` lines, updates env (rust name -> (lean text, type))"""
-        for st in stmts:
+        for pos, st in enumerate(stmts):
             k = st[0]
             if k == 'let':
                 _, name, ann, e = st
@@ -1034,6 +1045,9 @@ class Gen:
                     self.cenv[name] = e[1]
                     continue
                 want = ty_of(ann, self.self_ty) if ann else None
+                if ann is None and self.untyped(e, env):
+                    # `let index_mask = 1 << index_in_limb;`: the one integer width with which the rest of the block translates
+                    want = self.infer_let_width(name, e, stmts[pos + 1:], env, lines, declared)
                 t, ty = self.ex(e, env, want)
                 self.bind(name, t, ty, env, lines)
             elif k == 'lettuple':
@@ -1094,6 +1108,31 @@ class Gen:
                 lines.append(f'if {c} then {t} else')
             else:
                 raise Unsupported('statement ' + k)
+
+    def untyped(self, e, env):
+        try:
+            self.ex(e, env, None)
+        except Unsupported as ex:
+            return str(ex) == 'untyped literal'
+        return False
+
+    def infer_let_width(self, name, e, rest, env, lines, declared):
+        saved = (self.pn, self.nloop, list(self.aux), dict(self.cenv))
+        ok = []
+        for w in self.LIT_WIDTHS:
+            self.pn, self.nloop, self.aux, self.cenv = saved[0], saved[1], list(saved[2]), dict(saved[3])
+            env2, lines2 = dict(env), list(lines)
+            try:
+                t, ty = self.ex(e, env2, w)
+                self.bind(name, t, ty, env2, lines2)
+                self.run(rest, env2, lines2, set(declared) if declared is not None else None)
+                ok.append(w)
+            except Unsupported:
+                pass
+        self.pn, self.nloop, self.aux, self.cenv = saved[0], saved[1], list(saved[2]), saved[3]
+        if len(ok) != 1:
+            raise Unsupported('untyped literal')
+        return ok[0]
 
     def run_scoped(self, stmts, env, lines):
         """a loop body: its `let`s are local, its assignments to outer variables persist"""
@@ -1215,11 +1254,13 @@ class Gen:
                 self.bind(s, f'{tmp}{proj(idx, len(state))}', styp[idx], env, lines)
 
     def emit_loop_down(self, i, body, env, lines):
-        """`while i > 0 { i -= 1; body }` with a `Nat` counter (`let mut i = LIMBS;`, or the counter left by a preceding
-        `while i < BOUND` loop) as an auxiliary definition `<fn>_loop<j> captured.. : Nat → state.. → state` by structural
-        recursion on the counter: round `n + 1` runs the body with `i = n` and recurses with `n`.
+        """`while i > 0 { i -= 1; body }` with a `Nat` counter (`let mut i = LIMBS;`, `let mut i = limbs.len();`, or the
+        counter left by a preceding `while i < BOUND` loop) as an auxiliary definition
+        `<fn>_loop<j> captured.. : Nat → state.. → state` by structural recursion on the counter: round `n + 1` runs the body
+        with `i = n` and recurses with `n`.
         state = the outer variables the body assigns (arrays included), captured = the other outer variables it reads, both
-        in the order of their declaration in the function."""
+        in the order of their declaration in the function.  An untyped state variable (`let mut count = 0;`) gets the one
+        integer width that type-checks the body, as in the ascending form."""
         if not body or not (body[0][0] == 'assign' and body[0][1] == i and body[0][2] == '-='
                             and body[0][3][0] == 'lit' and body[0][3][1] == 1):
             raise Unsupported('loop form: the body must start with the decrement of the counter')
@@ -1241,38 +1282,32 @@ class Gen:
         if self.generic:
             used.append(self.generic)      # the limb count is not a variable of the Rust text: always passed on
         captured = [v for v in env if v in used and v not in state and v != i]
-        if any(env[v][1] == 'lit' for v in captured + state):
-            raise Unsupported('loop body uses an untyped counter')
-        self.nloop += 1
-        aux = f'{self.fname}_loop{self.nloop}'
-        env2 = {}
-        for v in captured:
-            env2[v] = (self.fresh('self_' if v == 'self' else v, env2), env[v][1])
-        styp = [env[s][1] for s in state]
+        if any(env[v][1] == 'lit' for v in captured):
+            raise Unsupported('loop body reads an untyped counter')
+        untyped = [s for s in state if env[s][1] == 'lit']
+        if len(untyped) > 2:
+            raise Unsupported('too many untyped loop variables')
+        choices = [[]]
+        for s in untyped:
+            choices = [c + [w] for c in choices for w in self.LIT_WIDTHS]
+        saved = (self.pn, self.nloop, list(self.aux), dict(self.cenv))
+        found, err = [], Unsupported('loop state')
+        for ch in choices:
+            self.pn, self.nloop, self.aux, self.cenv = saved[0], saved[1], list(saved[2]), {}
+            styp = [ch[untyped.index(s)] if s in untyped else env[s][1] for s in state]
+            try:
+                found.append((styp, self.loop_down_text(i, rest, state, styp, captured, env), self.pn, self.nloop, self.aux))
+            except Unsupported as ex:
+                err = ex
+        self.pn, self.nloop, self.aux, self.cenv = saved[0], saved[1], list(saved[2]), saved[3]
+        if len(found) != 1:
+            raise (err if not found else Unsupported('ambiguous type of an untyped loop variable'))
+        styp, (text, aux, capa), self.pn, self.nloop, self.aux = found[0]
+        self.aux.append(text)
         for s, ty in zip(state, styp):
-            env2[s] = (self.fresh(s, env2), ty)
-        nvar = self.fresh('n', env2)
-        env2[i] = (nvar, 'nat')           # in round `n + 1` the (already decremented) counter is `n`
-        outer, declared = set(env2), set()
-        pat = ', '.join(env2[s][0] for s in state)
-        tup = f'({pat})' if len(state) > 1 else pat
-        capb = ''.join(f' ({env2[v][0]} : {lean_ty(env2[v][1])})' for v in captured)
-        capa = ''.join(f' {env2[v][0]}' for v in captured)
-        saved_cenv, self.cenv = self.cenv, {}
-        lines2 = []
-        try:
-            self.run(rest, env2, lines2, declared)
-        finally:
-            self.cenv = saved_cenv
-        if declared & outer:
-            raise Unsupported('loop body shadows an outer variable')
-        if any(env2[s][1] != ty for s, ty in zip(state, styp)) or env2[i] != (nvar, 'nat'):
-            raise Unsupported('loop state changes type')
-        res = ' × '.join(lean_ty(t) for t in styp)
-        self.aux.append(f'@[gen_defs] def {aux}{capb} : Nat → ' + ' → '.join(lean_ty(t) for t in styp) + f' → {res}\n'
-                        + f'  | 0, {pat} => {tup}\n'
-                        + f'  | {nvar} + 1, {pat} =>\n    ' + '\n    '.join(lines2)
-                        + f'\n    {self.ns}.{aux}{capa} {nvar} ' + ' '.join(env2[s][0] for s in state))
+            if env[s][1] == 'lit':
+                env[s] = (f'{env[s][0]}#{ty}', ty)       # the literal initial value, now typed
+                self.cenv.pop(s, None)
         callt = (f'({self.ns}.{aux}' + ''.join(f' {atom(env[v][0])}' for v in captured) + f' {atom(env[i][0])} '
                  + ' '.join(atom(env[s][0]) for s in state) + ')')
         if len(state) == 1:
@@ -1284,6 +1319,34 @@ class Gen:
             for idx, s in enumerate(state):
                 self.bind(s, f'{tmp}{proj(idx, len(state))}', styp[idx], env, lines)
         env[i] = ('0', 'nat')
+
+    def loop_down_text(self, i, rest, state, styp, captured, env):
+        self.nloop += 1
+        aux = f'{self.fname}_loop{self.nloop}'
+        env2 = {}
+        for v in captured:
+            env2[v] = (self.fresh('self_' if v == 'self' else v, env2), env[v][1])
+        for s, ty in zip(state, styp):
+            env2[s] = (self.fresh(s, env2), ty)
+        nvar = self.fresh('n', env2)
+        env2[i] = (nvar, 'nat')           # in round `n + 1` the (already decremented) counter is `n`
+        outer, declared = set(env2), set()
+        pat = ', '.join(env2[s][0] for s in state)
+        tup = f'({pat})' if len(state) > 1 else pat
+        capb = ''.join(f' ({env2[v][0]} : {lean_ty(env2[v][1])})' for v in captured)
+        capa = ''.join(f' {env2[v][0]}' for v in captured)
+        lines2 = []
+        self.run(rest, env2, lines2, declared)
+        if declared & outer:
+            raise Unsupported('loop body shadows an outer variable')
+        if any(env2[s][1] != ty for s, ty in zip(state, styp)) or env2[i] != (nvar, 'nat'):
+            raise Unsupported('loop state changes type')
+        res = ' × '.join(lean_ty(t) for t in styp)
+        text = (f'@[gen_defs] def {aux}{capb} : Nat → ' + ' → '.join(lean_ty(t) for t in styp) + f' → {res}\n'
+                + f'  | 0, {pat} => {tup}\n'
+                + f'  | {nvar} + 1, {pat} =>\n    ' + '\n    '.join(lines2)
+                + f'\n    {self.ns}.{aux}{capa} {nvar} ' + ' '.join(env2[s][0] for s in state))
+        return text, aux, capa
 
     LIT_WIDTHS = (8, 32, 64, 128)
 
@@ -1450,12 +1513,14 @@ def impl_blocks(src, self_ty):
     return '\n'.join(out)
 
 
-def translate_file(path, ns, self_ty, want=None, private=False, ext=None):
+def translate_file(path, ns, self_ty, want=None, private=False, ext=None, cut=None):
     if isinstance(path, list):
         # a unit gathered from several files: the inherent impl blocks of `self_ty` in each of them
         src = '\n'.join(impl_blocks(open(f).read(), self_ty) for f in path)
     else:
         src = open(path).read()
+        if cut and cut in src:
+            src = src[:src.index(cut)]      # only the free functions in front of the first `impl` block (unit option `cut`)
         if self_ty:
             m = re.search(r'impl\s+' + self_ty + r'\s*\{', src)
             if not m:
@@ -1562,6 +1627,9 @@ FILES = [
              want=['select', 'overflowing_shl1', 'shl_limb', 'shr1', 'shr1_with_carry', 'overflowing_shl_vartime', 'overflowing_shr_vartime',
                    'shl_vartime', 'shr_vartime', 'wrapping_shl_vartime', 'wrapping_shr_vartime',
                    'overflowing_shl', 'overflowing_shr', 'shl', 'shr', 'wrapping_shl', 'wrapping_shr']),
+        dict(key='uint_bits', rel='src/uint/bits.rs', ns='CB.Gen.Shifts.Bits', self_ty=None, limb_more=['limb_shift'],
+             desc='the bit-query free functions over `&[Limb]` (a slice = the list of its limbs)',
+             want=['leading_zeros', 'trailing_zeros', 'trailing_ones', 'bit'], cut='\nimpl<'),
     ]),
 ]
 
@@ -1628,7 +1696,7 @@ def main():
             ext['limb_more'] = [reg[k] for k in u.get('limb_more', []) if k in reg]
             ext['uint_more'] = [reg[k] for k in u.get('uint_more', []) if k in reg]
             try:
-                order, out, failed, sigs = translate_file(path, ns, self_ty, u.get('want'), u.get('private', False), ext)
+                order, out, failed, sigs = translate_file(path, ns, self_ty, u.get('want'), u.get('private', False), ext, u.get('cut'))
             except (Unsupported, OSError) as ex:
                 order, out, failed, sigs = [], {}, {'*': str(ex)}, {}
             reg[u['key']] = (ns, sigs)
